@@ -34,14 +34,26 @@ assert PKG_DIR.startswith(os.path.abspath(REPO_SRC)), (
 
 
 class _Uuid:
+    """Generated identifiers.  Default: a readable per-run counter.  mode "hex": a uuid4-shaped string derived from
+    (salt, counter) - different in every execution of a C16 scenario, so that a generated id that influences selection
+    or ordering shows as a divergence between executions."""
+
     def __init__(self):
         self.n = 0
+        self.mode = None
+        self.salt = 0
 
-    def reset(self):
+    def reset(self, mode=None, salt=0):
         self.n = 0
+        self.mode = mode
+        self.salt = salt
 
     def uuid4(self):
         self.n += 1
+        if self.mode == "hex":
+            import hashlib
+            h = hashlib.md5(f"{self.salt}:{self.n}".encode()).hexdigest()
+            return f"{h[:8]}-{h[8:12]}-4{h[13:16]}-a{h[17:20]}-{h[20:32]}"
         return f"u{self.n:05d}"
 
 
